@@ -1276,9 +1276,76 @@ def rule_SGN0(ctx):
                     n += 1
                     r.fail(f.key, x, f"a cache keyed by the item value '{k}' holds what was computed for the first of several equal keys: 0.0 and -0.0 "
                            '(and 1, 1.0, True) are one key but have different encodings', loc=f.loc(x))
+    # memoised functions: lru_cache compares arguments with ==, so a parameter that can hold a float makes 0.0 and -0.0 (and
+    # 0, False) one cache entry.  Parameters annotated as text / integers / flags / tuples of those are safe; anything that can
+    # be a float needs a reviewed reason.
+    import re as _re
+    n_c = 0
+    for f in m.funcs.values():
+        if not f.is_cached() or f.mod == '__main__':
+            continue
+        a = f.node.args
+        plist = [(x.arg, x.annotation) for x in a.posonlyargs + a.args + a.kwonlyargs]
+        if a.vararg:
+            plist.append((a.vararg.arg, a.vararg.annotation))
+        if a.kwarg:
+            plist.append((a.kwarg.arg, a.kwarg.annotation))
+        for i, (pn, ann) in enumerate(plist):
+            if i == 0 and f.cls and pn in ('cls', 'self'):
+                continue
+            n_c += 1
+            txt = ast.unparse(ann) if ann is not None else None
+            floaty = txt is None or _re.search(r'\b(float|Any|object|ElementType|Number|Real|complex|BitsType)\b', txt) is not None
+            if not floaty:
+                r.ok(f'{f.key}({pn}: {txt})')
+            elif (ctx.rk(f.key), i) in SGN0_CACHE_REASONS:
+                r.ok(f'{f.key}({pn})', reason=True, sample={'instance': f.key, 'parameter': pn, 'reason': SGN0_CACHE_REASONS[(ctx.rk(f.key), i)]})
+            else:
+                r.fail(f.key, f'cached on {pn}: {txt}', f"{f.name} is memoised and its parameter '{pn}' can hold a float: the cache compares keys with ==, so "
+                       '0.0 and -0.0 (and 0, False) share one entry and the second of them gets the bits computed for the first', loc=f.loc())
+    if n_c < 8:
+        raise AnalysisError(f'only {n_c} parameters of memoised functions found (floor 8)')
+    # annotations are not enforced: whatever its parameters are called, a memoised function must not be one of the routes that
+    # turn a caller's VALUE into bits, nor hand one of its parameters on, untouched, to such a route
+    routes = {'dtypes:Dtype.build', 'bitstore_helpers:bitstore_from_token', 'array_:Array._create_element'}
+    for k in routes:
+        if k not in m.funcs:
+            raise AnalysisError(f'anchor vanished: {k}')
+    routes |= {g.key for g in m.funcs.values() if g.mod == 'bitstore_helpers' and g.name.endswith('2bitstore') and g.node.args.args
+               and g.node.args.args[0].annotation is not None and 'float' in ast.unparse(g.node.args.args[0].annotation)}
+    cg = ctx.callgraph()
+    for node, edges in cg.items():
+        f = m.funcs[node[0]]
+        root = f
+        while root.parent is not None:
+            root = root.parent
+        if not root.is_cached():
+            continue
+        if root.key in routes:
+            r.fail(root.key, f'{root.name} is memoised', f'{root.name} turns a value into bits and is memoised: the cache compares values with ==, so 0.0 and '
+                   '-0.0 (and 0, False) share one entry and the second of them gets the bits computed for the first', loc=root.loc())
+            continue
+        ps = set(root.params()) - {'self', 'cls'}
+        rebound = {y.id for y in ast.walk(root.node) if isinstance(y, ast.Name) and isinstance(y.ctx, ast.Store)}
+        for (callee, cs) in edges:
+            if callee[0] in routes and isinstance(cs.node, ast.Call):
+                for a_ in list(cs.node.args) + [k.value for k in cs.node.keywords]:
+                    if isinstance(a_, ast.Name) and a_.id in ps and a_.id not in rebound:
+                        r.fail(root.key, cs.node, f"{root.name} is memoised and hands its parameter '{a_.id}' to {callee[0].split(':')[1]}, which turns a value into "
+                               'bits: equal keys (0.0, -0.0, 0, False) share one cache entry although their encodings differ', loc=f.loc(cs.node))
+                    else:
+                        r.ok(None)
     if n < 5:
         raise AnalysisError(f'only {n} branches in float encoders examined (floor 5)')
     return r
+
+
+SGN0_CACHE_REASONS = {
+    # (function, parameter position)
+    ('dtypes:Dtype._new_from_token', 2): 'a scale of zero (either sign) is rejected by _set_scale, and an exception is never cached; other floats have one spelling',
+    ('dtypes:Dtype._create', 3): 'a scale of zero (either sign) is rejected by _set_scale, and an exception is never cached; other floats have one spelling',
+    ('utils:parse_name_length_token', 1): 'the keyword values are only used as lengths, through int(): 0.0 and -0.0 give the same length',
+}
 
 
 # ---------------------------------------------------------------------------------------------- IDEM
